@@ -17,6 +17,18 @@ NA = {
  "C19": "serde round trip of a value: no I/O fault or schedule changes whether two values share an encoding",
 }
 CHECKS = {
+ "C03": dict(level="exploration", design="§5.1",
+   text="On the finished graph of every (generated program, entropy seed) pair: successor and predecessor relations are exact inverses with no entry twice (by pointer identity, never by hash lookup, because merged returns change their key while sitting in other nodes' sets); every edge is a fall-through, a jump to the label written in the instruction, or the merge of a return into its function's exit, and none leaves an exit ecall; and against the harness's own reference edge model (an independent reader of the generator's dialect) every transfer an execution can make is an edge and no reachable instruction is reported unreachable. Exploration over programs x schedules.",
+   note="Clauses I3/I4 apply only to programs in the reference model's class (every path ends in ret or an exit ecall, all lines recognised by the harness's reader, ecall numbers set directly before the ecall) and trust that reader; I1/I2 trust nothing.",
+   technique="deterministic simulation: schedule search with structural invariants and a reference edge model"),
+ "C11": dict(level="exploration", design="§5.4",
+   text="On every schedule's finished graph separately: function entries are exactly the labels named by calls (read off the source text by the harness's own reader) or installed as interrupt handler; cfg.functions() has exactly those labels, all labels of one entry mapping to one function; each function's node list equals what an independent traversal reaches from its entry and per-node owner lists agree; each function has one exit, a return it reaches, every other return of it rewritten to lead to that exit; node-in-many-functions is reported iff two functions share a node. Workload rich in several labels per entry, interleaved bodies, forward and backward shared tails, fall-through entry, recursion, callers in dead code, 1-3 returns.",
+   note="Programs the analyzer rejects (function without return, CFG errors) are outside F1-F4 (C16's subject) and counted.",
+   technique="deterministic simulation: schedule search with an independent traversal as oracle"),
+ "C12": dict(level="exploration", design="§5.5",
+   text="Histories of 1-8 extra runs of AvailableValuePass / EcallTerminationPass / LivenessPass / run_diagnostics applied to the finished graph: after every step the snapshot (edges by identity, seven fact kinds per node, functions) and the lint items equal those right after the pipeline; a second analysis of the same parsed nodes on one thread and the analyses under further entropy seeds give equal snapshots; sweeps per pass run (from the tick hook) stay within 4*nodes+16 and a hard cap turns oscillation into a reported non-convergence.",
+   note="Trusted: the tick hook's sweep counts; the snapshot's textual rendering of facts (sorted).",
+   technique="deterministic simulation: operation histories on a stateful object with snapshot equality"),
  "C06": dict(level="fault_enumeration", design="§5.2",
    text="Crash- and hang-freedom under injected faults: generated worlds take content faults (torn, lost, replayed and interleaved writes, bit flips, byte substitutions, CRLF/CR, NUL, BOM, invalid UTF-8, a size multiplier), include-graph shapes (self-include, cycles, missing file, directory / dangling symlink / symlink loop in place of a file), reader faults (five error kinds x import index, enumerated from the run index, three reader personalities) in process, and system-call faults (failing n-th open/read/realpath, short reads, EINTR, TOCTOU redirect of the pretty printer's re-open; enumerated from the run index) through the real rva in nine output modes and both build profiles. Oracle: no panic (overflow checks and debug assertions on), no signal/abort/non-zero exit, import budget, tick bounds on the parse loop and on the sweeps of both analyses, CPU and address-space rlimits on every child, JSON mode prints JSON.",
    note="The pure-input part of the property (all byte strings, grammar-level mutations) is only sampled through content faults; no grammar coverage is claimed. Output-stream faults (EPIPE) are not alarms. The CPU limit is far above a normal run (10 s; 120 s for multiplied inputs), so it fires on non-termination or blow-up only.",
